@@ -34,6 +34,8 @@ import (
 //	J3 — the limit handed to the head fetches is never 0: what may be zero passes the
 //	     non-positive → -1 test first
 //	G12 — a slot shared by all peers is not held while waiting for one peer's bytes
+//	G13 — Close takes no lock that an operation holds across a fetch of log history
+//	M7 — a list serialised into content-addressed data is not ordered by map iteration
 //	G10 — what Drop destroys is what the store was opened on: cache.Destroy names the same
 //	     directory and address as the cache.Load of the function that builds the store
 func rulesExtra5(c *Ctx) {
@@ -48,6 +50,8 @@ func rulesExtra5(c *Ctx) {
 	c.ruleQ6()
 	c.ruleJ3()
 	c.ruleG12()
+	c.ruleG13()
+	c.ruleM7()
 }
 
 // keyParamOf: the string parameter a datastore key expression is built from
@@ -2034,4 +2038,249 @@ func (c *Ctx) ruleG12() {
 	}
 	c.Counts["G12:slot acquisitions in stream handlers"] = n
 	c.floor("G12", "functions serving a network stream", nStreamFns, 1)
+}
+
+// ---------------------------------------------------------------------------
+// G13
+
+// ruleG13: Close does not wait for a fetch. A lock that some operation holds across a fetch of
+// log history (it waits for blocks, under the CALLER's context, which Close does not cancel) is
+// not taken by Close or by what Close calls: otherwise a Close issued while a Load is waiting
+// for a block that does not arrive blocks for as long as the fetch does — half-way, with the
+// store already marked closed, so that a second Close returns nil as if all were released.
+func (c *Ctx) ruleG13() {
+	st := c.storeType()
+	if st == nil {
+		return
+	}
+	isFetch := func(call ssa.CallInstruction) bool {
+		switch calleeFull(call) {
+		case logMod + ".NewFromEntryHash", logMod + ".NewFromJSON", logMod + ".NewFromMultihash", logMod + ".NewFromEntry":
+			return true
+		}
+		return false
+	}
+	// locks held across a fetch, anywhere in the store's package
+	held := map[string]string{} // class -> where
+	for _, f := range c.fnsInPkg("stores/basestore") {
+		if c.isTestFile(f.Pos()) || c.isControlFn(f) || f.Blocks == nil {
+			continue
+		}
+		var ls map[ssa.Instruction]lockset
+		eachCall(f, func(call ssa.CallInstruction) {
+			if !isFetch(call) {
+				return
+			}
+			if ls == nil {
+				ls = c.locksetsOf(f)
+			}
+			for cls := range ls[call] {
+				held[cls] = fnKey(f)
+			}
+			for cls := range c.entryLocks(f, 0) {
+				held[cls] = fnKey(f)
+			}
+		})
+	}
+	closeFn := c.methodOf(st, "Close")
+	if closeFn == nil || closeFn.Blocks == nil {
+		c.floor("G13", "store Close", 0, 1)
+		return
+	}
+	// lock acquisitions of Close and of the same-package functions it calls (three levels)
+	type acq struct {
+		in  ssa.Instruction
+		cls string
+		via string
+	}
+	var acqs []acq
+	seen := map[*ssa.Function]bool{}
+	var walk func(f *ssa.Function, d int, via string)
+	walk = func(f *ssa.Function, d int, via string) {
+		if f == nil || f.Blocks == nil || seen[f] || d > 3 {
+			return
+		}
+		seen[f] = true
+		for _, g := range withClosures(f) {
+			eachInstr(g, func(in ssa.Instruction) {
+				if op := lockOpOf(in); op != nil && (op.kind == "Lock" || op.kind == "RLock") {
+					acqs = append(acqs, acq{in, op.class, via})
+				}
+				if call, ok := in.(ssa.CallInstruction); ok {
+					if _, isGo := in.(*ssa.Go); isGo {
+						return
+					}
+					if h := call.Common().StaticCallee(); h != nil && h.Pkg == closeFn.Pkg {
+						walk(h, d+1, via+"→"+h.Name())
+					}
+				}
+			})
+		}
+	}
+	walk(closeFn, 0, "Close")
+	cons := fnKey(closeFn) + "#no-lock-held-across-a-fetch"
+	for _, a := range acqs {
+		if where, ok := held[a.cls]; ok {
+			c.bad("G13", cons, a.in.Pos(), fmt.Sprintf("Close (%s) takes %s, which %s holds across a fetch of log history: the fetch waits for blocks under its caller's context, which Close does not cancel, so a Close issued while a load is waiting for a block blocks as long as the fetch does — with the store already marked closed, the cache and its directory lock still open, and a second Close returning nil", a.via, a.cls, where))
+			return
+		}
+	}
+	var hs []string
+	for cls := range held {
+		hs = append(hs, cls)
+	}
+	sort.Strings(hs)
+	c.ok("G13", cons, closeFn.Pos(), fmt.Sprintf("none of the %d lock acquisition(s) reachable from Close is of a lock held across a fetch (%s)", len(acqs), strings.Join(hs, ", ")))
+}
+
+// ---------------------------------------------------------------------------
+// M7
+
+// isSerialise: a call that turns a value into bytes that are content-addressed or compared.
+func isSerialise(call ssa.CallInstruction) bool {
+	switch calleeFull(call) {
+	case "encoding/json.Marshal", "github.com/ipfs/go-ipld-cbor.WrapObject", "github.com/ipfs/go-ipld-cbor.DumpObject", "github.com/polydawn/refmt/cbor.Marshal":
+		return true
+	}
+	g := call.Common().StaticCallee()
+	return g != nil && (g.Name() == "WriteCBOR" || g.Name() == "CreateDBManifest")
+}
+
+// ruleM7: what goes into content-addressed data does not depend on map iteration order. In the
+// access-controller packages a list that is built by appending inside a range over a map, and
+// not sorted afterwards, is not stored into a field that the package serialises (the write
+// list a controller saves): the same inputs would give different bytes, hence different
+// controller addresses and different database addresses, on two peers or on one peer asked twice.
+func (c *Ctx) ruleM7() {
+	n := 0
+	for _, pkg := range []string{"accesscontroller/ipfs", "accesscontroller/orbitdb", "accesscontroller/simple", "accesscontroller/utils", "accesscontroller/base", "utils"} {
+		fns := c.fnsInPkg(pkg)
+		// fields this package serialises
+		serialised := map[*types.Var]bool{}
+		for _, f := range fns {
+			if c.isTestFile(f.Pos()) || f.Blocks == nil {
+				continue
+			}
+			var loads []ssa.Value
+			byVal := map[ssa.Value]*types.Var{}
+			eachInstr(f, func(in ssa.Instruction) {
+				if u, ok := in.(*ssa.UnOp); ok && u.Op == token.MUL {
+					if fa, ok := u.X.(*ssa.FieldAddr); ok {
+						loads = append(loads, u)
+						byVal[u] = fieldVarOf(fa)
+					}
+				}
+			})
+			if len(loads) == 0 {
+				continue
+			}
+			eachCall(f, func(call ssa.CallInstruction) {
+				if !isSerialise(call) {
+					return
+				}
+				for _, l := range loads {
+					d := derived([]ssa.Value{l}, flowOpts{throughCalls: true})
+					for _, a := range call.Common().Args {
+						if d[a] || a == l {
+							serialised[byVal[l]] = true
+						}
+					}
+				}
+			})
+		}
+		for _, f := range fns {
+			if c.isTestFile(f.Pos()) || f.Blocks == nil {
+				continue
+			}
+			// values drawn from a range over a map
+			var seeds []ssa.Value
+			eachInstr(f, func(in ssa.Instruction) {
+				if r, ok := in.(*ssa.Range); ok {
+					if _, isMap := r.X.Type().Underlying().(*types.Map); isMap {
+						seeds = append(seeds, r)
+					}
+				}
+			})
+			dm := map[ssa.Value]bool{}
+			if len(seeds) > 0 {
+				dm = derived(seeds, flowOpts{throughCalls: true})
+			}
+			k := 0
+			eachInstr(f, func(in ssa.Instruction) {
+				// a store of a slice into a serialised field (assignment or composite literal)
+				st, ok := in.(*ssa.Store)
+				if !ok {
+					return
+				}
+				fa, ok := st.Addr.(*ssa.FieldAddr)
+				if !ok || !serialised[fieldVarOf(fa)] {
+					return
+				}
+				if _, isSlice := st.Val.Type().Underlying().(*types.Slice); !isSlice {
+					return
+				}
+				if !c.isControlFn(f) {
+					n++
+				}
+				cons := fmt.Sprintf("%s→%s#order-independent#%d", fnKey(f), fieldVarOf(fa).Name(), k)
+				k++
+				fromMap := dm[st.Val]
+				for _, v := range sliceSources(st.Val) {
+					if dm[v] {
+						fromMap = true
+					}
+				}
+				// appended slices (append(s, ids...)): the variadic operand itself
+				var walk func(v ssa.Value, d int)
+				walk = func(v ssa.Value, d int) {
+					if v == nil || d > 6 {
+						return
+					}
+					switch y := v.(type) {
+					case *ssa.Phi:
+						for _, e := range y.Edges {
+							walk(e, d+1)
+						}
+					case *ssa.Call:
+						if b, ok := y.Call.Value.(*ssa.Builtin); ok && b.Name() == "append" && len(y.Call.Args) == 2 {
+							if dm[y.Call.Args[1]] {
+								fromMap = true
+							}
+							walk(y.Call.Args[0], d+1)
+						}
+					}
+				}
+				walk(st.Val, 0)
+				if !fromMap {
+					c.ok("M7", cons, st.Pos(), "the list stored for serialisation is not built from a range over a map")
+					return
+				}
+				sorted := false
+				ds := derived([]ssa.Value{st.Val}, flowOpts{})
+				eachCall(f, func(call ssa.CallInstruction) {
+					full := calleeFull(call)
+					if strings.HasPrefix(full, "sort.") || strings.HasPrefix(full, "slices.Sort") {
+						for _, a := range call.Common().Args {
+							if a == st.Val || ds[a] {
+								sorted = true
+							}
+							if mi, ok := a.(*ssa.MakeInterface); ok && (mi.X == st.Val || ds[mi.X]) {
+								sorted = true
+							}
+						}
+					}
+				})
+				if sorted {
+					c.ok("M7", cons, st.Pos(), "the list is drawn from a map and sorted before it is stored")
+				} else {
+					c.bad("M7", cons, st.Pos(), "a list that this package serialises into content-addressed data is built by appending inside a range over a map and is not sorted: its order changes from run to run, so the same inputs give different controller addresses and different database addresses — on two peers, and on one peer asked twice; Create of the same database is then no longer refused")
+				}
+			})
+		}
+	}
+	c.Counts["M7:lists stored for serialisation"] = n
+	if n == 0 {
+		// the write list is reached through accessors this rule does not follow: nothing is claimed
+		c.ok("M7", "no-list-stored-for-serialisation-found", 0, "no assignment of a list to a field that is serialised was singled out (the field is reached through accessors): not judged")
+	}
 }
